@@ -33,7 +33,7 @@ F17 = "F17"      # RTLIL backend: to_binary(negative member of a signed shaped e
 # ------------------------------------------------------------------------------------------------
 # generator (abstract syntax only; runs in the main process, driven by chk.rng)
 
-def gen_enum(rng, for_field=True):
+def gen_enum(rng, for_field=True, unnamed_bits=False):
     r = rng.random()
     if r < 0.55:
         signed = rng.random() < 0.35
@@ -55,6 +55,26 @@ def gen_enum(rng, for_field=True):
     if len(bits) >= 2 and rng.random() < 0.35:       # an alias: combination of declared single bits
         sub = rng.sample(bits, 2)
         members.append(("AL", (1 << sub[0]) | (1 << sub[1])))
+    if unnamed_bits:
+        # multi-bit members over bits that have no single-bit member of their own (`MODE = 12` next to `EN = 1`,
+        # `IRQ = 2`): `_flag_mask_` then differs from `_singles_mask_`. Flag stream only: reading arbitrary bit
+        # patterns of such a class is outside "member combinations" (Python accepts some and rejects others).
+        free = [b for b in range(w) if b not in bits]
+        rng.shuffle(free)
+        if free:
+            k = rng.randint(1, min(2, len(free)))
+            mv = 0
+            for b in free[:k]:
+                mv |= 1 << b
+            if rng.random() < 0.3:
+                mv |= 1 << rng.choice(bits)               # ... possibly together with a named bit
+            if mv & (mv - 1) or rng.random() < 0.5:
+                if not (mv & (mv - 1)):                    # a single unnamed bit alone would be a named bit: add one
+                    mv |= 1 << rng.choice(bits)
+                members.append(("MB", mv))
+            if len(free) > k and rng.random() < 0.3:
+                mv2 = (1 << free[k]) | (1 << rng.choice(bits))
+                members.append(("MB2", mv2))
     rng.shuffle(members)
     return (kind, w, False, tuple(members))
 
@@ -246,6 +266,31 @@ def valid_values(e):
     if kind == "e":
         return [m[1] for m in members]
     return [v for v in range(1 << w) if enum_valid(e, v)]
+
+
+def has_unnamed_bits(e):
+    """a Flag with a multi-bit member containing a bit that has no single-bit member"""
+    if e[0] == "e":
+        return False
+    singles = mask = 0
+    for _n, v in e[3]:
+        mask |= v
+        if v & (v - 1) == 0:
+            singles |= v
+    return mask != singles
+
+
+def is_combination(e, v):
+    """v is a union of declared members (what the property calls a member combination)"""
+    acc = 0
+    for _n, mv in e[3]:
+        if mv & v == mv:
+            acc |= mv
+    return v >= 0 and acc == v
+
+
+def combinations(e):
+    return [v for v in range(1 << e[1]) if is_combination(e, v)]
 
 
 def has_signed_enum_field(l, enums):
@@ -586,7 +631,27 @@ def simulate(case, env, obj, lay):
             dyn = ("ok", arr[idx], idx)
         except Exception as e:
             dyn = ("error", errkind(e), repr(e)[:120])
-    res = {"reads": [], "tbw": [], "cw": [], "sw": [], "dyn": []}
+    res = {"reads": [], "tbw": [], "cw": [], "sw": [], "dyn": [], "dynw_tb": [], "dynw_proc": []}
+    req = Signal(name="req")
+    cmd = {}
+
+    def field_value(fld, fs, v):
+        if fs[0] == "enum":
+            return env.enum_class(fs[1])(v)
+        if fs[0] == "p":
+            return v
+        return fld.shape().from_bits(v)
+
+    async def writer(ctx):
+        # a simulator process that performs the write it is told to
+        async for _ in ctx.changed(req):
+            if not cmd:
+                continue
+            try:
+                ctx.set(cmd["target"], cmd["value"])
+                cmd["result"] = ("ok",)
+            except Exception as e:
+                cmd["result"] = ("error", errkind(e), repr(e)[:120])
 
     async def tb(ctx):
         for raw in case["sim_raws"]:
@@ -622,6 +687,31 @@ def simulate(case, env, obj, lay):
                 except Exception as e:
                     row.append(("error", errkind(e), repr(e)[:120]))
             res["tbw"].append(row)
+        # writes through (fields of) a dynamically indexed array element: from the testbench and from a process
+        if dyn is not None and dyn[0] == "ok":
+            for i, sub, fs, cases_ in case.get("dyn_writes", []):
+                trow, prow = [], []
+                for raw, v in cases_:
+                    for how, row in (("tb", trow), ("proc", prow)):
+                        ctx.set(Value.cast(sig), raw)
+                        ctx.set(dyn[2], i)
+                        try:
+                            fld = follow(dyn[1], sub)
+                            pyv = field_value(fld, fs, v)
+                            if how == "tb":
+                                ctx.set(fld, pyv)
+                            else:
+                                cmd.clear()
+                                cmd.update(target=fld, value=pyv)
+                                ctx.set(req, 1 - ctx.get(req))
+                                if cmd.get("result", ("ok",))[0] != "ok":
+                                    row.append(cmd["result"])
+                                    continue
+                            row.append(("ok", ctx.get(Value.cast(sig))))
+                        except Exception as e:
+                            row.append(("error", errkind(e), repr(e)[:120]))
+                res["dynw_tb"].append(trow)
+                res["dynw_proc"].append(prow)
         # circuit writes (comb), then registered writes (sync)
         for c, cases_ in zip(cw, case["writes"]):
             row = []
@@ -652,6 +742,7 @@ def simulate(case, env, obj, lay):
     try:
         sim = Simulator(m)
         sim.add_clock(Period(MHz=1))
+        sim.add_process(writer)
         sim.add_testbench(tb)
         sim.run()
         out["run"] = ("ok",)
@@ -791,7 +882,7 @@ def enum_job(jobs):
             r["rows"] = rows
             # value-typed right operand and reflected operators
             try:
-                member = cls(valid_values(e)[-1])
+                member = cls(combinations(e)[-1])
                 r["mixed"] = ("ok", repr(a & member) != "", repr(member | a) != "")
             except Exception as ex:
                 r["mixed"] = ("error", errkind(ex), repr(ex)[:120])
@@ -843,17 +934,47 @@ def make_case(rng, depth, exhaustive_bits=10, n_random_raws=24, malformed=0.1, r
                 v = rng.getrandbits(sz) if sz else 0
             cs.append((raw, v, None))
         writes.append(cs)
-    dyn = None
-    for p, fs in [((), l)] + paths:
-        if fs[0] == "array" and fs[2] > 0 and fs_width(fs[1], enums) > 0:
-            dyn = (p, fs[2])
-            break
+    dyn, dyn_writes = pick_dyn(rng, l, enums, paths, raws)
     inits = [gen_init(rng, l, enums, malformed if rng.random() < 0.4 else 0.0) for _ in range(5)]
     inits = [i for i in inits]
     bad_raws = [1 << size, -1]
     return {"layout": l, "enums": list(enums), "raws": raws, "bad_raws": bad_raws, "sim_raws": sim_raws,
-            "read_paths": read_paths, "write_paths": write_paths, "writes": writes, "dyn": dyn, "inits": inits,
+            "read_paths": read_paths, "write_paths": write_paths, "writes": writes, "dyn": dyn, "dyn_writes": dyn_writes,
+            "inits": inits,
             "exhaustive": exhaustive, "size": size, "rtlil": rtlil}
+
+
+def random_field_value(rng, fs, enums):
+    if fs[0] == "p":
+        return rng.randint(-(1 << (fs[1] + 1)), 1 << (fs[1] + 1))
+    if fs[0] == "enum":
+        vals = valid_values(enums[fs[1]])
+        return rng.choice(vals) if vals else 0
+    sz = layout_size(fs, enums)
+    return rng.getrandbits(sz) if sz else 0
+
+
+def pick_dyn(rng, l, enums, paths, raws):
+    """the array that is indexed with a signal (an array of aggregates when there is one), and the writes made through
+    its dynamically selected element: the whole element and fields inside it (all offsets), for in-range indices"""
+    cands = [(p, fs) for p, fs in [((), l)] + list(paths)
+             if fs[0] == "array" and fs[2] > 0 and fs_width(fs[1], enums) > 0]
+    if not cands:
+        return None, []
+    agg = [c for c in cands if c[1][1][0] not in ("p", "enum") and fields_of(c[1][1], enums)]
+    prefix, arr = rng.choice(agg) if agg else cands[0]
+    elem, n = arr[1], arr[2]
+    subs = [((), elem)]
+    if elem[0] not in ("p", "enum"):
+        inner = all_paths(elem, enums, limit=12)
+        nonzero = [pf for pf in inner if len(pf[0]) == 1 and dict((k, o) for k, _f, o, _w in fields_of(elem, enums)).get(pf[0][0], 0) > 0]
+        rng.shuffle(inner)
+        subs += nonzero[:2] + inner[:2]
+    out = []
+    for sub, fs in subs[:5]:
+        for i in sorted(set([0, n - 1, rng.randrange(n)])):
+            out.append((i, sub, fs, [(rng.choice(raws), random_field_value(rng, fs, enums)) for _ in range(2)]))
+    return (prefix, n), out
 
 
 CORPUS = [
@@ -867,6 +988,9 @@ CORPUS = [
     {"layout": ("struct", (("first", ("p", 3, False, "int")), ("second", ("p", 7, False, "int")), ("third", ("p", 6, False, "int"))), False), "enums": []},
     {"layout": ("flex", 16, (("first", ("p", 3, False, "fn"), 1), ("second", ("p", 7, False, "fn"), 0),
                              ("third", ("p", 6, False, "fn"), 10), (0, ("p", 1, False, "fn"), 14))), "enums": []},
+    # an array of structures: fields at non-zero offsets inside elements selected with a signal
+    {"layout": ("array", ("struct", (("lo", ("p", 3, False, "fn")), ("mid", ("p", 4, True, "fn")), ("hi", ("p", 2, False, "fn"))), False), 4),
+     "enums": []},
     # malformed: a flexible field beyond the size
     {"layout": ("flex", 3, (("a", ("p", 3, False, "int"), 1),)), "enums": []},
 ]
@@ -889,9 +1013,9 @@ def corpus_case(rng, entry):
                 v = rng.getrandbits(layout_size(fs, enums))
             cs.append((rng.choice(raws), v, None))
         writes.append(cs)
-    dyn = ((), l[2]) if l[0] == "array" and l[2] > 0 and fs_width(l[1], enums) > 0 else None
+    dyn, dyn_writes = pick_dyn(rng, l, enums, paths, raws)
     return {"layout": l, "enums": enums, "raws": raws, "bad_raws": [1 << size, -1], "sim_raws": raws[:12],
-            "read_paths": [p for p, _ in paths], "write_paths": paths[:6], "writes": writes, "dyn": dyn,
+            "read_paths": [p for p, _ in paths], "write_paths": paths[:6], "writes": writes, "dyn": dyn, "dyn_writes": dyn_writes,
             "inits": [gen_init(rng, l, enums, 0.0) for _ in range(4)] + [("bits", raws[-1])],
             "exhaustive": size <= 10, "size": size, "rtlil": True}
 
@@ -917,6 +1041,9 @@ def requests_for(case):
         prefix, n = case["dyn"]
         for i in range(n):
             reqs.append(f"(readpath {L} ({' '.join(ser_key(k) for k in prefix + (i,))}) " + " ".join(str(r) for r in case["sim_raws"]) + ")")
+        for i, sub, _fs, cs in case["dyn_writes"]:
+            reqs.append(f"(write {L} ({' '.join(ser_key(k) for k in prefix + (i,) + tuple(sub))}) " +
+                        " ".join(f"({raw} {v})" for raw, v in cs) + ")")
     return reqs
 
 
@@ -964,6 +1091,7 @@ def judge_layout(chk, case, obs, resps):
     path_rs = [next(it) for _ in case["read_paths"]]
     write_rs = [next(it) for _ in case["write_paths"]]
     dyn_rs = [next(it) for _ in range(case["dyn"][1])] if case["dyn"] is not None else []
+    dynw_rs = [next(it) for _ in case["dyn_writes"]] if case["dyn"] is not None else []
     if "crash" in obs:
         chk.not_shown("harness worker crashed", {"layout": repr(l), "crash": obs["crash"]})
         return
@@ -1082,6 +1210,22 @@ def judge_layout(chk, case, obs, resps):
                 chk.count(1)
                 d = common.kv(pr)
                 J.cmp(f"ctx.get(view{list(prefix)}[idx={i}])", case, drow[i], d["m"], d["sp"], {"raw": raw})
+        chk.hist("dyn_writes", len(case["dyn_writes"]))
+        for (i, sub, fs, cs), mr, trow, prow in zip(case["dyn_writes"], dynw_rs, sim["dynw_tb"], sim["dynw_proc"]):
+            parts = mr.split(" ; ")
+            off = int(common.kv(parts[0])["off"])
+            chk.hist("dyn_write_field_offset_in_element", "0" if not sub else "field")
+            sub_bare_union = fs[0] == "union" and not fs[2]
+            for n_, ((raw, v), pr) in enumerate(zip(cs, parts[1:])):
+                d = common.kv(pr)
+                m_, s_ = int(d["m"]), int(d["sp"])
+                for how, row in (("testbench", trow), ("process", prow)):
+                    chk.count(1)
+                    t = row[n_]
+                    impl = t[1] if t[0] == "ok" else "err:" + t[1]
+                    cls = [F11] if (t[0] != "ok" and t[1] == "TypeError" and sub_bare_union) else []
+                    J.cmp(f"ctx.set(view{list(prefix)}[idx={i}]{list(sub)}, v) in a {how}, then read the signal", case,
+                          impl, m_, s_, {"raw": raw, "value": v, "index": i, "path": list(prefix) + [i] + list(sub), "offset": off}, cls)
     elif case["dyn"] is not None:
         J.differ("dynamic index of an array view", case, sim["dyn_error"][0], "ok", "ok", {"detail": sim["dyn_error"][1]},
                  [F12] if signed_enum else [])
@@ -1132,7 +1276,9 @@ def judge_enum(chk, job, r, resps):
     it = iter(resps)
     c_parts = next(it).split(" ; ")
     f_parts = next(it).split(" ; ")
-    if c_parts[0] != "wf=1":
+    unnamed = has_unnamed_bits(e)
+    chk.hist("flag_unnamed_multibit", unnamed) if kind != "e" else None
+    if c_parts[0] != "wf=1" and not unnamed:
         chk.not_shown("generated enumeration is not well-formed in the model", {"enum": E})
         return
     for v, ci, cm, fi, fm in zip(values, r["const"], c_parts[1:], r["frombits"], f_parts[1:]):
@@ -1149,7 +1295,7 @@ def judge_enum(chk, job, r, resps):
         else:
             model_fb = ("ejected", int(fbm[1:]))
         # the property's sentence: a member value (combination) round-trips to itself
-        spec_fb = ("ok", v, ("ok", v)) if enum_valid(e, v) else model_fb
+        spec_fb = ("ok", v, ("ok", v)) if (enum_valid(e, v) and (kind == "e" or is_combination(e, v))) else model_fb
         J.cmp(f"{kind}.from_bits({v}) and back", fake_case, tuple(fi), model_fb, spec_fb, {"enum": E})
     if "rtlil" in r and kind == "e":
         chk.hist("rtlil_enum", r["rtlil"][0])
@@ -1183,6 +1329,10 @@ def judge_enum(chk, job, r, resps):
                 pyv = orc[1]
             elif orc[0] == "ejected":
                 pyv = orc[1] & ((1 << w) - 1)
+            elif unnamed and orc[0] == "error":
+                # the result is not a member combination and Python's class refuses it: no oracle value
+                chk.hist("flag_oracle_refuses", name)
+                continue
             else:
                 chk.not_shown("Python's enum.Flag gave no value for a member combination", dict(ex, oracle=orc))
                 continue
@@ -1215,11 +1365,17 @@ def enum_requests(job):
 
 
 def make_enum_job(rng, rtlil):
-    e = gen_enum(rng)
+    e = gen_enum(rng, unnamed_bits=rng.random() < 0.45)
     kind, w, s, members = e
     lo, hi = (-(1 << max(w - 1, 0)), 1 << max(w - 1, 0)) if s else (0, 1 << w)
     values = list(range(lo - 1, hi + 1)) if kind == "e" else list(range(0, hi + 1))
-    vv = valid_values(e) if kind != "e" else []
+    if has_unnamed_bits(e):
+        # const/from_bits: member combinations, and values with a bit outside the declared flags
+        mask = 0
+        for _n, mv in members:
+            mask |= mv
+        values = [v for v in values if is_combination(e, v) or (v & ~mask)]
+    vv = combinations(e) if kind != "e" else []
     if len(vv) <= 8:
         pairs = [(x, y) for x in vv for y in vv]
     else:
@@ -1282,12 +1438,14 @@ def run(chk):
                        "shaped Enum/Flag fields incl. signed ones, Struct/Union classes, flexible layouts with gaps and overlaps) built "
                        "from an abstract syntax; per layout: placement, from_bits/as_bits/as_value/const(from_bits) and every field for "
                        "the raw patterns, 5 random initialisers (40% of them malformed), Signal(init=), Signal.like, simulated reads of "
-                       "every field path incl. a dynamic array index, testbench/comb/sync writes through 6 field paths, RTLIL conversion of "
+                       "every field path incl. a dynamic array index, testbench/comb/sync writes through 6 field paths, testbench and "
+                       "process writes through the element (and fields at every offset inside it) of an array indexed with a signal, RTLIL conversion of "
                        "every 6th design; separately shaped Enum/Flag classes: const/from_bits of every value, & | ^ ~ on flag views "
                        "(circuit and testbench) against Python's enum.Flag. distinct = serialised layout / class; non-trivial = size > 0 and has fields")
     chk.assumptions += [
         "Flag classes have unsigned shapes and every member value fits the declared shape (no truncation warning)",
-        "every multi-bit Flag member is a combination of declared single-bit members (Python's handling of alias-only bits is not modelled)",
+        "Flag classes with multi-bit members over bits that have no single-bit member are exercised in the flag stream on member "
+        "combinations only (not as layout fields: Python accepts some and rejects other partial patterns of such members)",
         "RTLIL is only checked to elaborate; its behaviour is C04's subject",
         "Struct/Union classes are generated without default field values",
         "an array view is indexed with a signal only when its elements are wider than 0 bits (word_select rejects stride 0)",
